@@ -131,7 +131,7 @@ impl<F: Field> MultilinearExtension<F> for SparseMultilinearExtension<F> {
         }
         // sanity check
         assert!(
-            a + k < self.num_vars && b + k < self.num_vars,
+            a + k <= self.num_vars && b + k <= self.num_vars,
             "invalid relabel argument"
         );
         if a == b || k == 0 {
